@@ -214,6 +214,10 @@ func (m *promptManager) handleGetPrompt(ctx context.Context, req *JSONRPCRequest
 		if err != nil {
 			return newJSONRPCErrorResponse(req.ID, ErrCodeInternal, err.Error(), nil), nil
 		}
+		// The schema wants an array: a nil slice would be encoded as null.
+		if result != nil && result.Messages == nil {
+			result.Messages = []PromptMessage{}
+		}
 		return result, nil
 	}
 
